@@ -23,6 +23,11 @@ Definition chk_to_url (x : pystr * msg * res pystr) : bool := res_eqb str_eqb (m
 Definition m_from_url (x : pystr * pystr) : res msg :=
   with_class (fst x) (fun c => from_urlencoded c (snd x) (c_default c)).
 Definition chk_from_url (x : pystr * pystr * res msg) : bool := res_msg_eqb (m_from_url (fst x)) (snd x).
+(* a nested-message deserializer (deserialize_from_one_of and the parameter deserializers built on it):
+   (nested class, sformat, value) -> the nested message's _dict *)
+Definition m_one_of (x : pystr * wire * pyval) : res msg :=
+  let '(n, f, v) := x in with_class n (fun c => one_of c f v).
+Definition chk_one_of (x : pystr * wire * pyval * res msg) : bool := res_msg_eqb (m_one_of (fst x)) (snd x).
 (* Message.verify(m) — the generic check alone *)
 Definition m_verify (x : pystr * msg) : res unit := with_class (fst x) (fun c => generic_verify c (snd x)).
 Definition chk_verify (x : pystr * msg * res unit) : bool := res_eqb unit_eqb (m_verify (fst x)) (snd x).
@@ -30,6 +35,17 @@ Definition chk_verify (x : pystr * msg * res unit) : bool := res_eqb unit_eqb (m
 Definition m_authz (x : pystr * option pystr * msg) : res msg :=
   let '(n, nonce, m) := x in with_class n (fun c => authz_verify c nonce m).
 Definition chk_authz (x : pystr * option pystr * msg * res msg) : bool := res_msg_eqb (m_authz (fst x)) (snd x).
+
+(* verify() with a request object: (rule jar | par, class, class the object is read as, content of the
+   verified object, message before) vs the message afterwards (the verified object under the marker key) *)
+Definition request_case := (pystr * pystr * pystr * option msg * msg)%type.
+Definition m_request (x : request_case) : res msg :=
+  let '(rule, n, ron, payload, m) := x in
+  with_class n (fun c => with_class ron (fun roc =>
+    if str_eqb rule (PS "jar") then jar_verify c roc payload m
+    else if str_eqb rule (PS "par") then par_verify c roc payload m
+    else Unmodelled)).
+Definition chk_request (x : request_case * res msg) : bool := res_msg_eqb (m_request (fst x)) (snd x).
 
 (* the text layer *)
 Definition chk_utf8_enc (x : pystr * option (list N)) : bool :=
